@@ -599,6 +599,45 @@ Proof.
     destruct b; try discriminate; destruct l; reflexivity.
 Qed.
 
+(* ------------------------------------------------------------------ the users of the client *)
+
+(* the clauses of C19 about one loop kind, gathered: every scheduled behaviour is attempted; after j
+   consecutive failures the wait is 0 / min(Max, Min*2^(j-1)); the first retry after an established
+   connection waits 0 and the next Min; nothing is recorded after the attempt in flight at a
+   cancellation, nothing at all if it is seen at the loop head or during a wait, and the attempts
+   before it are unchanged *)
+Definition reconnects_properly (l : loopk) : Prop :=
+  (forall c sch, no_keep l sch ->
+     length (client l c sch None) = length sch /\ map ev_out (client l c sch None) = map (outcome_of l) sch) /\
+  (forall c pre fs ab rest, good_cfg c -> no_keep l pre -> fresh l pre -> Forall (fun x => fails l x = true) fs ->
+     exists e, nth_error (client l c (pre ++ fs ++ ab :: rest) None) (length pre + length fs) = Some e /\
+               ev_out e = outcome_of l ab /\
+               ev_wait e = match length fs with O => 0 | S j => Z.min (cmax c) (cmin c * 2 ^ Z.of_nat j) end) /\
+  (forall c p ok f nxt rest, good_cfg c -> no_keep l p -> keeps l ok = false -> fails l ok = false -> fails l f = true ->
+     (exists e, nth_error (client l c (p ++ ok :: f :: nxt :: rest) None) (S (length p)) = Some e /\
+                ev_wait e = 0 /\ ev_out e = outcome_of l f) /\
+     (exists e, nth_error (client l c (p ++ ok :: f :: nxt :: rest) None) (S (S (length p))) = Some e /\
+                ev_wait e = cmin c /\ ev_out e = outcome_of l nxt)) /\
+  (forall c sch ci p,
+     (length (client l c sch (Some (ci, p))) <= S ci)%nat /\
+     (before_contact p = true -> (length (client l c sch (Some (ci, p))) <= ci)%nat) /\
+     firstn ci (client l c sch (Some (ci, p))) = firstn ci (client l c sch None)).
+
+Lemma every_loop_reconnects_properly l : reconnects_properly l.
+Proof.
+  unfold reconnects_properly. split; [|split; [|split]].
+  - intros c sch. exact (retries_forever l c sch).
+  - intros c pre fs ab rest. exact (waits_grow_and_cap l c pre fs ab rest).
+  - intros c p ok f nxt rest. exact (reset_after_success l c p ok f nxt rest).
+  - intros c sch ci p. exact (quiescent_after_cancel l c sch ci p).
+Qed.
+
+Lemma host_destination_reconnects token_is_empty : reconnects_properly (wrapper_choice token_is_empty).
+Proof. apply every_loop_reconnects_properly. Qed.
+
+Lemma file_tool_reconnects : reconnects_properly file_choice /\ reconnects_properly client_pkg_choice.
+Proof. split; apply every_loop_reconnects_properly. Qed.
+
 (* ------------------------------------------------------------------ who notices the loss *)
 
 Lemma dial_nil_after_established : forall e, dial_returns_error e = false.
